@@ -26,14 +26,15 @@ var (
 	countAlpha = []uint64{0, 1, 2, 10, 1000, 300_000_000_000_000_000} // the last: 100 x count no longer fits 64 bits
 	durAlpha   = []time.Duration{0, 1, time.Millisecond, time.Hour}
 	elapsed    = []time.Duration{0, 400 * time.Millisecond, time.Second, 90 * time.Second}
-	errAlpha   = []error{nil, errors.New("x"), errors.New("bad {{.Failed}} 100% sure\nsecond line {red}")}
-	ansi       = regexp.MustCompile("\x1b\\[[0-9;]*m")
-	reStarted  = regexp.MustCompile(`(?m)^(\d+) iterations started in `)
-	reElapsed  = regexp.MustCompile(`(?m)^\d+ iterations started in (\S+)`)
-	reSucc     = regexp.MustCompile(`(?m)^Successful Iterations: (\d+) \(([0-9.]+|NaN|\+Inf)%`)
-	reFail     = regexp.MustCompile(`(?m)^Failed Iterations: (\d+) \(([0-9.]+|NaN|\+Inf)%`)
-	reDrop     = regexp.MustCompile(`(?m)^Dropped Iterations: (\d+) \(([0-9.]+|NaN|\+Inf)%`)
-	reProg     = regexp.MustCompile(`✔ +(\d+) +(?:⦸ +(\d+) +)?✘ +(\d+)`)
+	errAlpha   = []error{nil, errors.New("x"), errors.New("bad {{.Failed}} 100% sure\nsecond line {red}"),
+		errors.New(`Get "http://h/<id>?a=1&b='2'+3": refused`)} // characters a markup-aware renderer would escape
+	ansi      = regexp.MustCompile("\x1b\\[[0-9;]*m")
+	reStarted = regexp.MustCompile(`(?m)^(\d+) iterations started in `)
+	reElapsed = regexp.MustCompile(`(?m)^\d+ iterations started in (\S+)`)
+	reSucc    = regexp.MustCompile(`(?m)^Successful Iterations: (\d+) \(([0-9.]+|NaN|\+Inf)%`)
+	reFail    = regexp.MustCompile(`(?m)^Failed Iterations: (\d+) \(([0-9.]+|NaN|\+Inf)%`)
+	reDrop    = regexp.MustCompile(`(?m)^Dropped Iterations: (\d+) \(([0-9.]+|NaN|\+Inf)%`)
+	reProg    = regexp.MustCompile(`✔ +(\d+) +(?:⦸ +(\d+) +)?✘ +(\d+)`)
 )
 
 func snap(c uint64, d time.Duration) progress.IterationDurationsSnapshot {
@@ -103,7 +104,7 @@ func viewsSuite() hlib.Suite {
 						for _, el := range elapsed {
 							for ei, e := range errAlpha {
 								for _, failed := range []bool{false, true} {
-									for _, lp := range []string{"", "/tmp/x"} {
+									for _, lp := range []string{"", "/tmp/x", `/tmp/f1-a&b<c>+'d'"e".log`} {
 										total, startedN := s+f+d, s+f
 										data := views.ResultData{Error: e, LogFilePath: lp, SuccessfulIterationDurations: snap(s, du), FailedIterationDurations: snap(f, du),
 											IterationsStarted: startedN, Duration: el, SuccessfulIterationCount: s, Iterations: total, FailedIterationCount: f, DroppedIterationCount: d, Failed: failed}
@@ -145,6 +146,9 @@ func viewsSuite() hlib.Suite {
 											}
 											if e != nil && !strings.Contains(text, "Error: "+e.Error()) {
 												r.Fail("C19/summary-error", "text", "error text is not printed verbatim", input)
+											}
+											if lp != "" && strings.Contains(text, "Full logs:") && !strings.Contains(text, "Full logs: "+lp) {
+												r.Fail("C19/summary-log-path", "text", "the log file path is not printed verbatim", input)
 											}
 										}
 										r.Eval()
@@ -220,7 +224,10 @@ func resultSuite() hlib.Suite {
 			for _, f := range []uint64{0, 1, 3} {
 				for _, d := range []uint64{0, 1, 3} {
 					for _, withErr := range []bool{false, true} {
-						for oi, opts := range optAlpha {
+						for oi0, opts := range append(append([]options.RunOptions{}, optAlpha...), optAlpha[0], optAlpha[3]) {
+							// the last two: an iteration is recorded after the totals were taken (a straggler that
+							// outlived the completion timeout); summary and verdict are those of the totals
+							oi, straggler := oi0, oi0 >= len(optAlpha)
 							mfr := opts.MaxFailuresRate
 							r.Eval()
 							stats := &progress.Stats{}
@@ -237,7 +244,7 @@ func resultSuite() hlib.Suite {
 							if withErr {
 								res.AddError(errors.New("teardown failed"))
 							}
-							input := fmt.Sprintf("successful=%d failed=%d dropped=%d error=%v options#%d{ignore-dropped=%v max-failures=%d max-failures-rate=%d verbose=%v max-iterations=%d}", s, f, d, withErr, oi, opts.IgnoreDropped, opts.MaxFailures, mfr, opts.Verbose, opts.MaxIterations)
+							input := fmt.Sprintf("successful=%d failed=%d dropped=%d error=%v options#%d{ignore-dropped=%v max-failures=%d max-failures-rate=%d verbose=%v max-iterations=%d} recorded-after-totals=%v", s, f, d, withErr, oi, opts.IgnoreDropped, opts.MaxFailures, mfr, opts.Verbose, opts.MaxIterations, straggler)
 							r.SampleCase(input)
 							res.SnapshotProgress(time.Second)
 							pd := res.Progress().VerifData()
@@ -245,6 +252,11 @@ func resultSuite() hlib.Suite {
 								r.Fail("C19/result-progress-data", "mismatch", fmt.Sprintf("%+v", pd), input)
 							}
 							res.GetTotals()
+							if straggler {
+								stats.Record(metrics.FailedResult, int64(time.Millisecond))
+								stats.Record(metrics.SuccessResult, int64(time.Millisecond))
+								stats.Record(metrics.DroppedResult, 0)
+							}
 							sd := res.Summary().VerifData()
 							if sd.SuccessfulIterationCount != s || sd.FailedIterationCount != f || sd.DroppedIterationCount != d || sd.Iterations != s+f+d || sd.IterationsStarted != s+f {
 								r.Fail("C19/result-summary-data", "counts", fmt.Sprintf("%+v", sd), input)
